@@ -1,6 +1,7 @@
 import PoolProofs.C19Lemmas
 import PoolProofs.C19LemmasRpc
 import PoolProofs.C19LemmasStr
+import PoolModel.Generated.C19State
 /-! # C19 — decoding untrusted tickets and auctioneer batch messages never crashes
 
 Headline theorems about the model of sidecar/tlv.go + sidecar/codec.go (`Pool.Dec.deserializeTicket`,
@@ -67,10 +68,53 @@ theorem C19_repo_checks_present :
     repoRpcCfg.nilChecks = true ∧ repoRpcCfg.rejectByRawID = true ∧ repoRpcCfg.signNilCheck = true := by
   refine ⟨?_, ?_, ?_⟩ <;> rfl
 
+/-- (regenerated fact) The model treats every parser / decoder as a function of its input alone.  That is
+what the source does: in the intra-package call graphs of `ParseRPCBatch` … `ParseRPCSign` (package order)
+and of `DecodeString`, `DeserializeTicket`, `EncodeToString`, `SerializeTicket` (package sidecar) no function
+assigns to, indexes into, deletes from or takes the address of a package-level variable – so the two handler
+goroutines of a daemon (rpcServer and SidecarAcceptor) can be inside the parsers at the same time without a
+data race (a concurrent map access is a fatal, unrecoverable runtime error).  The call graphs contain every
+function the model mirrors. -/
+theorem C19_parsers_touch_no_package_state :
+    Pool.Gen.C19.parserStateWrites = [] ∧
+    (∀ f ∈ ["ParseRPCBatch", "ParseRPCMatchedOrders", "ParseRPCServerAsk", "ParseRPCServerBid",
+             "ParseRPCServerOrder", "parseNodeAddrs", "ParseRPCSign"], f ∈ Pool.Gen.C19.orderParseCallGraph) ∧
+    (∀ f ∈ ["DecodeString", "DeserializeTicket", "deserializeOffer", "deserializeRecipient", "deserializeOrder",
+             "deserializeExecution", "decodeBytes", "DSig", "DBytes8"], f ∈ Pool.Gen.C19.sidecarCodecCallGraph) := by
+  decide
+
 /-- For EVERY decoded prepare message — any sub-message absent, any key / hex / address / tx malformed —
 `ParseRPCBatch` yields a batch or an error, never a panic. -/
 theorem C19_parse_total (m : OrderMatchPrepare) : parseRPCBatch repoRpcCfg m ≠ .panic :=
   parseRPCBatch_ne_panic repoRpcCfg C19_repo_checks_present.1 m
+
+/-- **Go map iteration order is irrelevant for the outcome class.**  `ParseRPCBatch` ranges over the Go maps
+`MatchedMarkets` and (per market) `MatchedOrders` in a random order; the model lists the entries in some
+order.  For any two orders of the markets (and, inside a market, of its orders) the outcome class
+(ok / error; never panic) is the same – the result is `ok` exactly when every entry is fine. -/
+theorem C19_parse_class_order_independent (l l' : List (Nat × MatchedMarket)) (hp : l.Perm l') :
+    (parseMarkets repoRpcCfg l).cls = (parseMarkets repoRpcCfg l').cls := by
+  apply cls_eq_of_ok_iff (parseMarkets_ne_panic _ C19_repo_checks_present.1 _)
+    (parseMarkets_ne_panic _ C19_repo_checks_present.1 _)
+  rw [parseMarkets_ok_iff, parseMarkets_ok_iff]
+  exact ⟨fun h e he => h e (hp.mem_iff.2 he), fun h e he => h e (hp.mem_iff.1 he)⟩
+
+theorem C19_parse_class_order_independent_orders (dur : Nat) (l l' : List (Bytes × MatchedOrder)) (hp : l.Perm l') :
+    (parseOrders repoRpcCfg dur l).cls = (parseOrders repoRpcCfg dur l').cls := by
+  apply cls_eq_of_ok_iff (parseOrders_ne_panic _ C19_repo_checks_present.1 _ _)
+    (parseOrders_ne_panic _ C19_repo_checks_present.1 _ _)
+  rw [parseOrders_ok_iff, parseOrders_ok_iff]
+  exact ⟨fun h e he => h e (hp.mem_iff.2 he), fun h e he => h e (hp.mem_iff.1 he)⟩
+
+/-- the same for the `ServerNonces` map of `ParseRPCSign` -/
+theorem C19_sign_class_order_independent (l l' : List (Bytes × Bytes)) (hp : l.Perm l') :
+    (parseNonces l).cls = (parseNonces l').cls := by
+  apply cls_eq_of_ok_iff (parseNonces_ne_panic _) (parseNonces_ne_panic _)
+  rw [parseNonces_ok_iff, parseNonces_ok_iff]
+  exact ⟨fun h e he => h e (hp.mem_iff.2 he), fun h e he => h e (hp.mem_iff.1 he)⟩
+
+example : ([(1, (⟨[]⟩ : MatchedMarket)), (2, ⟨[]⟩)] : List (Nat × MatchedMarket)).Perm [(2, ⟨[]⟩), (1, ⟨[]⟩)] :=
+  List.Perm.swap _ _ _
 
 /-- A parse error is answerable: both handlers hand a reject carrying the message's batch ID to the
 auctioneer client (and do not panic). -/
